@@ -27,6 +27,7 @@ fn args() -> (String, HashMap<String, String>) {
 fn cfg_of(name: &str) -> gen::Cfg {
     match name {
         "full" => gen::Cfg::full(),
+        "dups" => gen::Cfg { distinct_rule_names: false, max_rules: 5, ..gen::Cfg::core() },
         _ => gen::Cfg::core(),
     }
 }
@@ -51,6 +52,8 @@ fn main() {
                 let data = val::to_json_text(&doc);
                 let obs = if m.get("rtree").map(|v| v == "1").unwrap_or(false) {
                     exec::observe_with_rtree(&rules, &data)
+                } else if m.get("full").map(|v| v == "1").unwrap_or(false) {
+                    exec::observe_full(&rules, &data)
                 } else {
                     let mut obs = exec::observe(&rules, &data, false);
                     if obs["kind"] == "ok" {
